@@ -426,6 +426,51 @@ def overwrite(run, fx):
     return n
 
 
+def freenull(run, fx):
+    """OWNFIELD, third part: a member function other than the destructor that frees one of the object's own buffers leaves the field
+    pointing somewhere else (null, or a replacement) on every path to its exit.  Such functions run while the object lives on --
+    Silf::releaseBuffers runs on the reject path of readGraphite AND again from ~Silf, Face::Table::release from every owner -- so a
+    field left dangling is freed a second time."""
+    n = 0
+    for fn in fx.all_fns():
+        if not fn.f.get('cls') or fn.f.get('dtor') or fn.f.get('implicit') or not fn.file.startswith('src/') or fn.q.split('::')[-1].startswith('~'):
+            continue
+        for _, e in fn.elements():
+            t = None
+            if e['k'] == 'CXXDeleteExpr':
+                t = fn.render(fn.strip_all_casts(e['c'][0]))
+            elif e['k'] == 'CallExpr' and e.get('fq') == 'free' and e.get('args'):
+                t = fn.render(fn.strip_all_casts(e['args'][0]))
+            if not t or not t.startswith('this->'):
+                continue
+            n += 1
+            stores = [u for _, u in fn.elements() if u['k'] == 'BinaryOperator' and u['op'] == '=' and fn.render(fn.N(u['c'][0])) == t]
+            sb = {}
+            for u in stores:
+                sb.setdefault(fn.block_of[u['i']], []).append(fn.pos_of[u['i']])
+            b0, p0 = fn.block_of[e['i']], fn.pos_of[e['i']]
+            esc = False
+            if not any(p > p0 for p in sb.get(b0, [])):
+                seen, st = set(), list(fn.succs(b0))
+                while st:
+                    b = st.pop()
+                    if b in seen or b in sb:
+                        continue
+                    seen.add(b)
+                    if b == fn.exit:
+                        esc = True
+                        break
+                    st.extend(fn.succs(b))
+            inst = '%s does not leave %s dangling' % (fn.q.split('graphite2::')[-1], t.replace('this->', ''))
+            if esc:
+                run.violated('OWNFIELD', inst, fn.loc(e), '%s frees %s and can return with the field still holding the freed pointer: the object lives on (this is not the '
+                             'destructor), so the next release -- the destructor at the latest -- frees it again' % (fn.q, t))
+            else:
+                run.held('OWNFIELD', inst, fn.loc(e), 'the field is re-assigned on every path after the release')
+    if n < 8:
+        run.broken('OWNFIELD', 'release sites outside destructors', 'only %d found (15 confirmed)' % n)
+
+
 # ---------------------------------------------------------------------------------------- OWNLOCAL
 OWNLOCAL_EXCEPTIONS = {
     ('graphite2::GlyphCache::GlyphCache', 'boxes'):
@@ -730,6 +775,7 @@ def run(run):
     guarded('NAMEPRELOAD', lambda: c09.namepreload(run, fx))
     guarded('OWNFIELD', lambda: ownfield(run, fx))
     guarded('OWNFIELD', lambda: overwrite(run, fx))
+    guarded('OWNFIELD', lambda: freenull(run, fx))
     guarded('OWNLOCAL', lambda: ownlocal(run, fx, None))
     from . import noescape
     guarded('NOESCAPE', lambda: noescape.check(run, E, 'NOESCAPE'))
